@@ -40,6 +40,16 @@ CLAIMS["C01"] = dict(
    text="Decides necessary conditions of well-formed output on all paths and for all 19 variable kinds x every schema position: every string the resolvers can return is a Sanitizer::sanitize result with the renderer's sanitizer; free-text fields are read only inside those resolvers on the rendering path; empty identifiers are never pushed; the sanitiser admits ASCII alphanumerics only. It does not decide that zerv's parser re-accepts the string or that re-rendering is the identity (value laws).",
    note="Trusted: rustc MIR, zfacts, rules/c01.py. Separator/Display agreement is decided under C08/C09.",
    ref="4/C01")
+CLAIMS["C10"] = dict(
+   technique="comparator-term extraction from MIR (then_with chains with closures inlined, decision tables by path enumeration, loop recogniser SliceLex) compared with the SemVer 2.0.0 reference on all abstract comparison outcomes",
+   text="Decides the comparator as a term for ALL pairs/triples of versions: each lexicographic stage of <SemVer as Ord>::cmp equals the reference stage on every assignment of {Less,Equal,Greater} x Option/enum discriminants (the complete input space of a stage, since values are touched only through comparisons), with orientation and the callee of each atom; the identifier-list loop is SliceLex(element cmp over 0..min(len), then length); build metadata is never read; eq is cmp == Equal; tag selection uses this cmp. Totality, antisymmetry and transitivity then follow from the lexicographic-composition lemma - a pair/triple sample cannot establish them.",
+   note="Trusted: rustc MIR, zfacts, rules/cmpterm.py. Assumes std Ord impls for u64/String/slices and Ordering::then_with have their documented semantics.",
+   ref="4/C10")
+CLAIMS["C11"] = dict(
+   technique="comparator-term extraction from MIR compared with the PEP 440 key on all abstract outcomes; loop recogniser PaddedLex; finite table checks (label order is a strict total order)",
+   text="Decides <PEP440 as Ord>::cmp as the six-stage lexicographic key of the statement (epoch, zero-padded release, pre with a<b<rc then number, post none-lowest, dev none-highest, local none-lowest) for all inputs, including implicit numbers read as 0 on both sides, the LocalSegment table (numeric below alphabetic, alphabetic lower-cased) and eq == (cmp == Equal). Spelling independence is decided in its structural part only (everything funnels into one struct; see C09); equality of concrete differently spelled inputs is a value law and is not decided.",
+   note="Trusted: rustc MIR, zfacts, rules/cmpterm.py. Assumes std Ord impls and <[T] as Ord>::cmp semantics.",
+   ref="4/C11")
 REASONS = {}
 
 def main():
